@@ -200,7 +200,7 @@ def run(ctx):
     if ctx.shard == 0 or ctx.thorough:
         for k_ in range(2):
             one_file(ctx, ctx.rng(), os.path.join(wd, "t.dump"), via_class=bool(k_), big=True)
-    n = ctx.n(400, 2000)
+    n = ctx.n(1200, 2000)
     for i in range(n):
         rng = ctx.rng()
         one_file(ctx, rng, os.path.join(wd, "t.dump"), via_class=(i % 3 == 0))
